@@ -4,7 +4,7 @@ Engine B (symrun).  The real afkak.consumer.Consumer runs against ContractClient
 *symbolic partition log*: n messages at offsets o_1 < o_2 < ... (SymInt, arbitrary gaps =
 compaction).  The script chooses, per step, which outstanding completion happens next
 (broker reply of any admissible shape, processor completion, next timer)."""
-from twisted.internet.defer import Deferred
+from twisted.internet.defer import Deferred, succeed
 from twisted.internet.task import Clock
 
 from afkak.common import (
@@ -112,6 +112,8 @@ def jobs(tier):
     for start in ("num", "earliest", "committed"):
         for proc in ("sync", "async"):
             out.append({"start": start, "proc": proc, "acn": 1 if start == "committed" else None, "n": 3, "K": 5 if q else 6, "faults": 1, "sync": 1})
+    for acn in (None, 2):
+        out.append({"start": "num", "proc": "paused", "acn": acn, "n": 3 if q else 4, "K": 6 if q else 7, "faults": 1})
     out.append({"kind": "bytes", "batches": 2 if q else 3})
     return out
 
@@ -270,6 +272,13 @@ def scenario(job):
             if job["proc"] == "async":
                 st["pend"] = Deferred()
                 return st["pend"]
+            if job["proc"] == "paused":
+                # a Deferred that has already fired but whose callback chain is paused on further asynchronous work
+                # (succeed(x).addCallback(store_async)): .called is True although the result is still pending
+                st["pend"] = Deferred()
+                d_ = succeed(None)
+                d_.addCallback(lambda _r, inner=st["pend"]: inner)
+                return d_
             return None
 
         def on_request(kind, p):
